@@ -46,13 +46,10 @@ type BsTree[K constraints.Ordered, V any] struct {
 	comp gogu.CompFn[K]
 	root *Node[K, V]
 	size int
-	// free holds the nodes detached by Delete. They are handed out again
-	// by Upsert, which spares an allocation on delete/insert heavy workloads.
-	free []*Node[K, V]
+	// free holds the nodes unlinked by Delete. They are chained through
+	// the Right pointer and are handed out again on the next insertions.
+	free *Node[K, V]
 }
-
-// maxFreeNodes limits the number of detached nodes kept around for reuse.
-const maxFreeNodes = 1024
 
 // New initializes a new BST data structure together with a comparison operator.
 // Depending on the comparator it sorts the tree in ascending or descending order.
@@ -110,18 +107,17 @@ func (b *BsTree[K, V]) Upsert(key K, val V) {
 			_ = key
 			var val V = val
 			_ = val
-			if last := len(b.free) - 1; last >= 0 {
-				n := b.free[last]
-				b.free[last] = nil
-				b.free = b.free[:last]
-				n.Key, n.Val = key, val
+			if b.free == nil {
 				{
-					inl1_v0 = n
+					inl1_v0 = NewNode(key, val)
 					break inl1done
 				}
 			}
+			n := b.free
+			b.free, n.Right = n.Right, nil
+			n.Key, n.Val = key, val
 			{
-				inl1_v0 = NewNode(key, val)
+				inl1_v0 = n
 				break inl1done
 			}
 		}
@@ -146,18 +142,17 @@ func (n *Node[K, V]) upsert(b *BsTree[K, V], key K, val V) {
 				_ = key
 				var val V = val
 				_ = val
-				if last := len(b.free) - 1; last >= 0 {
-					n := b.free[last]
-					b.free[last] = nil
-					b.free = b.free[:last]
-					n.Key, n.Val = key, val
+				if b.free == nil {
 					{
-						inl2_v0 = n
+						inl2_v0 = NewNode(key, val)
 						break inl2done
 					}
 				}
+				n := b.free
+				b.free, n.Right = n.Right, nil
+				n.Key, n.Val = key, val
 				{
-					inl2_v0 = NewNode(key, val)
+					inl2_v0 = n
 					break inl2done
 				}
 			}
@@ -178,18 +173,17 @@ func (n *Node[K, V]) upsert(b *BsTree[K, V], key K, val V) {
 				_ = key
 				var val V = val
 				_ = val
-				if last := len(b.free) - 1; last >= 0 {
-					n := b.free[last]
-					b.free[last] = nil
-					b.free = b.free[:last]
-					n.Key, n.Val = key, val
+				if b.free == nil {
 					{
-						inl3_v0 = n
+						inl3_v0 = NewNode(key, val)
 						break inl3done
 					}
 				}
+				n := b.free
+				b.free, n.Right = n.Right, nil
+				n.Key, n.Val = key, val
 				{
-					inl3_v0 = NewNode(key, val)
+					inl3_v0 = n
 					break inl3done
 				}
 			}
@@ -237,21 +231,14 @@ func (n *Node[K, V]) delete(b *BsTree[K, V], key K) (*Node[K, V], error) {
 	} else {
 		// case 1: node has no child
 		if n.Left == nil && n.Right == nil {
-		inl4done:
-			switch {
-			default:
+			{
 				var b *BsTree[K, V] = b
 				_ = b
 				var n *Node[K, V] = n
 				_ = n
-				if len(b.free) >= maxFreeNodes {
-					break inl4done
-
-				}
-				// Do not keep the key and the value alive while the node is waiting to be reused.
-				var empty Item[K, V]
-				n.Item = empty
-				b.free = append(b.free, n)
+				n.Item = Item[K, V]{}
+				n.Right = b.free
+				b.free = n
 			}
 
 			return nil, nil
@@ -259,21 +246,14 @@ func (n *Node[K, V]) delete(b *BsTree[K, V], key K) (*Node[K, V], error) {
 		// case 2a: node has left child only
 		if n.Left != nil && n.Right == nil {
 			child := n.Left
-		inl5done:
-			switch {
-			default:
+			{
 				var b *BsTree[K, V] = b
 				_ = b
 				var n *Node[K, V] = n
 				_ = n
-				if len(b.free) >= maxFreeNodes {
-					break inl5done
-
-				}
-				// Do not keep the key and the value alive while the node is waiting to be reused.
-				var empty Item[K, V]
-				n.Item = empty
-				b.free = append(b.free, n)
+				n.Item = Item[K, V]{}
+				n.Right = b.free
+				b.free = n
 			}
 
 			return child, nil
@@ -281,21 +261,14 @@ func (n *Node[K, V]) delete(b *BsTree[K, V], key K) (*Node[K, V], error) {
 		// case 2b: node has right child only
 		if n.Left == nil && n.Right != nil {
 			child := n.Right
-		inl6done:
-			switch {
-			default:
+			{
 				var b *BsTree[K, V] = b
 				_ = b
 				var n *Node[K, V] = n
 				_ = n
-				if len(b.free) >= maxFreeNodes {
-					break inl6done
-
-				}
-				// Do not keep the key and the value alive while the node is waiting to be reused.
-				var empty Item[K, V]
-				n.Item = empty
-				b.free = append(b.free, n)
+				n.Item = Item[K, V]{}
+				n.Right = b.free
+				b.free = n
 			}
 
 			return child, nil
